@@ -1,0 +1,18 @@
+//go:build !verif
+
+// Package verifhook provides named observation points for the external
+// verification harness. Without the "verif" build tag every function is an
+// empty, inlinable no-op.
+package verifhook
+
+// Enabled reports whether the hooks are compiled in.
+const Enabled = false
+
+// At marks a named site.
+func At(site string) {}
+
+// At1 marks a named site with one scalar.
+func At1(site string, a uint64) {}
+
+// At2 marks a named site with two scalars.
+func At2(site string, a, b uint64) {}
